@@ -77,6 +77,14 @@ CHECKS = {
              "constant, sub-strategies and fixed-income roots never flagged, on every feasible path (bankruptcy on any date or none).",
         technique="symbolic execution of the real Backtest.run with symbolic future prices, z3 (LRA) per path, concrete replay",
         ref="DESIGN.md §3 C16"),
+    'C04': dict(
+        text="For every cut date t the future is symbolic: each supplied data cell dated after t (prices, stats, target weights, unit risks, coupons, "
+             "bid/offer) is a solver variable, the past is concrete; the real Backtest.run with a StopAfter(t) algo is executed for a catalogue of 12 stacks "
+             "covering the stock scheduling/selection/statistic/weighting/rebalancing algos, and it is proved that no branch is decided on a future cell "
+             "while now <= t and that every recorded row dated <= t, every temp entry handed between algos and every kernel input is a constant - i.e. for "
+             "ALL values of the future cells.",
+        technique="symbolic execution of the real Backtest.run with symbolic future data (taint = SMT atoms), z3 per path; two-futures concrete replay",
+        ref="DESIGN.md §3 C04"),
 }
 
 NOT_YET = "check not built yet in this session (planned in DESIGN.md §3); will move to checks when its harness lands"
